@@ -307,11 +307,13 @@ def shrink_timer(ctx, texe, c):
 
 
 def run(ctx):
-    ctx.trusted += ["translation of the pointer tree of heap-inl.h to its BFS array (validated by the BFS dump correspondence)",
+    ctx.trusted += ["tools/gen_lean.py (clang AST -> Lean for the loop-free kernels timer_clamp, timer_due_in, next_timeout, timer_less_than) and UvModel/CSem.lean",
+                    "translation of the pointer tree of heap-inl.h to its BFS array (validated by the BFS dump correspondence)",
                     "clang/ASan; the virtual clock (clock_gettime interposed in the harness)",
                     "timer_counter modelled as unbounded Nat (uint64 in C: wrap needs 2^64 starts)"]
     ctx.assumptions += ["CLOCK_MONOTONIC readings are non-decreasing (uv_now monotone is proved given that)"]
-    ctx.require_lean(["UvModel.Props.C04Heap", "UvModel.Props.C04Timer"])
+    ctx.gen_lean()      # Tie A: regenerate the kernels from /repo, GenEq re-proves them equal to the model
+    ctx.require_lean(["UvModel.GenEq", "UvModel.Props.C04Heap", "UvModel.Props.C04Timer"])
     hexe = ctx.harness("c04_heap", ["harness/c04_heap.c"], link_lib=False)
     texe = ctx.harness("c04_timer", ["harness/c04_timer.c"])
     if ctx.replay:
